@@ -318,6 +318,47 @@ def rule_u12(ctx):
                       "unparses to nth(\"1\", v, a), which parses to a different (unequal) formula", f"{want}")
 
 
+def rule_u16(ctx):
+    """fresh_vars: every name handed out is reserved in the shared `used_names` set (sibling formulas are renamed one after the other against the same set)."""
+    f = ctx.repo.func(LANG, "fresh_vars", "C07.U16")
+    c = f"{LANG}:fresh_vars"
+    stores = [a for a in walk_local(f) if isinstance(a, ast.Assign) and isinstance(a.targets[0], ast.Subscript) and src(a.targets[0].value) == "result"]
+    if not stores:
+        raise Unrecognised("C07.U16", c, "assignments to result[...] not found")
+    upd = [x for x in calls_in(f) if isinstance(x.func, ast.Attribute) and src(x.func.value) == "used_names" and x.func.attr == "update"]
+    for u in upd:
+        g = u.args[0] if u.args else None
+        it = src(g.generators[0].iter) if isinstance(g, (ast.GeneratorExp, ast.ListComp, ast.SetComp)) else (src(g) if g is not None else "")
+        if it in ("result", "result.keys()"):
+            ctx.viol("U16-fresh-names-reserved", c, "new names are added to used_names", site(u),
+                     f"`{' '.join(src(u).split())[:60]}` iterates over the KEYS of `result` (the original variables), so the freshly chosen names are not reserved: a later sibling quantifier "
+                     "gets the same fresh name again (x, x_0, x_1, x_1) and the constraint changes on an unparse/parse round trip")
+            return
+        if it != "result.values()":
+            raise Unrecognised("C07.U16", c, f"update of used_names from `{it}` not understood")
+    if upd:
+        ctx.ok("U16-fresh-names-reserved", c, "new names are added to used_names", site(upd[0]), "used_names.update(... result.values())")
+        return
+    for st in stores:
+        v = st.value
+        name_expr = None
+        if isinstance(v, ast.Name) and v.id == "variable":
+            name_expr = {"proposal", "variable.name"}
+        elif isinstance(v, ast.Call) and call_name(v) == "BoundVariable" and v.args:
+            name_expr = {src(v.args[0])}
+        else:
+            raise Unrecognised("C07.U16", c, f"value `{src(v)[:40]}` stored in result not understood")
+        par = getattr(st, "_parent", None)
+        block = None
+        for fld in ("body", "orelse"):
+            b = getattr(par, fld, None)
+            if isinstance(b, list) and st in b:
+                block = b
+        adds = [x for s_ in (block or []) for x in ast.walk(s_) if isinstance(x, ast.Call) and isinstance(x.func, ast.Attribute) and src(x.func.value) == "used_names" and x.func.attr == "add" and x.args and src(x.args[0]) in name_expr]
+        ctx.check(bool(adds), "U16-fresh-names-reserved", c, f"name of `{src(v)[:30]}` reserved in used_names", site(st),
+                  "a variable is handed out without its name being added to the shared used_names set", "used_names.add(<its name>) in the same block")
+
+
 def rule_u5(ctx):
     m = ctx.repo.module(LANG, "C07.U5")
     need = {
@@ -569,6 +610,10 @@ def run(ctx) -> str:
     ctx.guarded("U10", lambda: c05.rule_r9(ctx, "U10", only_functions={"smt_expr_to_str"}))
     ctx.guarded("U11", lambda: rule_u11(ctx))
     ctx.guarded("U12", lambda: rule_u12(ctx))
+    ctx.guarded("U16", lambda: rule_u16(ctx))
+    from . import c08 as _c08
+
+    ctx.guarded("U17", lambda: _c08.rule_d11(ctx))
     from . import c11
 
     # match-expression text is unescaped by helpers.instantiate_escaped_symbols: its recognised algorithm (placeholder freshness, table, order) is shared with C11
